@@ -1,7 +1,7 @@
-\* exhaustive, parameters focus: block > 2 components (shared definitions), nesting 3, all keep-sets (thorough)
-CONSTANTS N = 3  Par = {"p", "q"}  NVal = 2  NGrid = 2  MaxDepth = 3  MaxLevel = 5
+\* exhaustive, database focus, deeper (thorough)
+CONSTANTS N = 10  Par = {"p", "q"}  NVal = 2  NGrid = 2  MaxDepth = 1  MaxLevel = 7
           GridSlot = "stack"  PickleSerial = "fresh"  DbSerial = "max"
-CONSTANTS Keeps <- KeepsFull  Acts <- ActsParams  Parent0 <- ParentA  Cls0 <- ClsA
+CONSTANTS Keeps <- KeepsNone  Acts <- ActsDb  Parent0 <- ParentD  Cls0 <- ClsD
           ParOf <- McParOf  GridCls <- McGridCls  MatCls <- McMatCls
           DbCls <- McDbCls  CopyCls <- McAllCls  CallsOf <- McCallsOf
 INIT Init
